@@ -109,15 +109,58 @@ func W4(depths []int, patterns [][]int, inners []string, sink Sink) {
 	}
 }
 
+// W4Final: at the depth limit the LAST opener is varied over every nest unit (every call site of
+// the machines' push action), on six base patterns: total depth 10,000 (must be accepted) and
+// 10,001 (must be rejected). The periodic patterns of W4 put only one unit kind at a given depth
+// (seeded change C01r5-m2: one of 14 generated copies of the depth guard typed '>' for '>=').
+func W4Final(sink Sink) {
+	bases := [][]int{{0}, {1}, {2}, {3}, {0, 2}, {1, 3}}
+	inners := []string{"", "0"}
+	c := &h.Case{Family: "W4F"}
+	c.DescFn = func(c *h.Case) string {
+		return fmt.Sprintf("nest pattern=%v for %d levels, then one level opened by unit %q, inner=%q", bases[c.P[0]], c.P[1]-1, NestUnits[c.P[2]].Open, inners[c.P[3]])
+	}
+	for bi, base := range bases {
+		for _, d := range []int{10000, 10001} {
+			for ui, u := range NestUnits {
+				for ii, inner := range inners {
+					var b bytes.Buffer
+					for i := 0; i < d-1; i++ {
+						b.WriteString(NestUnits[base[i%len(base)]].Open)
+					}
+					if inner == "" {
+						b.WriteByte(u.Open[0])
+						b.WriteByte(u.Close[len(u.Close)-1])
+					} else {
+						b.WriteString(u.Open)
+						b.WriteString(inner)
+						b.WriteString(u.Close)
+					}
+					for i := d - 2; i >= 0; i-- {
+						b.WriteString(NestUnits[base[i%len(base)]].Close)
+					}
+					c.Input = b.Bytes()
+					c.Desc = ""
+					c.Deep = d > 10000
+					c.P = [4]int{bi, d, ui, ii}
+					sink(c)
+				}
+			}
+		}
+	}
+}
+
 // W4 standard parameter sets.
 func W4Quick(sink Sink) {
 	W4([]int{9999, 10000, 10001, 10003}, NestPatterns[:12], []string{"", "0"}, sink)
 	W4([]int{1, 2, 3, 17, 100}, NestPatterns, NestInner, sink)
+	W4Final(sink)
 }
 
 func W4Thorough(sink Sink) {
 	W4([]int{9998, 9999, 10000, 10001, 10002, 20000}, NestPatterns, NestInner, sink)
 	W4([]int{1, 2, 3, 4, 5, 17, 100, 1000, 5000}, NestPatterns, NestInner, sink)
+	W4Final(sink)
 }
 
 // W5 megabyte tokens and very deep documents (C10, C20).
